@@ -93,6 +93,17 @@ def run_deser(case: dc.Case, rz, label, spec, st, tier):
             settings.deserialization.override_dataclass_constructors = False
             return
     settings.deserialization.override_dataclass_constructors = False
+    # deserialization pass_through: data are JSON data (no instance of a named type in them), hence the
+    # type-check wrappers must fall back on the ordinary method everywhere: identical results
+    mod_classes = {v for v in vars(rz.module).values() if isinstance(v, type) and getattr(v, "__module__", None) == rz.module.__name__}
+    for nc in (True, False):
+        # pt_all: every class JSON data cannot be an instance of (a dict *is* a Mapping, a str *is* a Sequence:
+        # passing those through unchecked is what such a predicate would ask for), plus Any
+        for pname, pt in (("pt_all", lambda cls: cls is Any or getattr(cls, "__module__", "") not in ("builtins", "collections.abc", "typing", "collections")), ("pt_types", mod_classes or {int})):
+            try:
+                methods[(nc, False, "method+" + pname)] = apischema.deserialization_method(rz.tp, no_copy=nc, pass_through=pt)
+            except Exception as e:
+                st.violation({"label": label, "type": short(spec), "options": [nc, False, pname], "signature": {"kind": "deser_pass_through_compile", "exc": type(e).__name__, "option": pname, "has_any": has_any}, "what": f"deserialization_method(pass_through={pname}) raised {e!r}"[:300], "source": rz.source})
     ref_key = (True, False, "method")  # library defaults
     for dev, d in enumerate_data(spec, ctx, k=1, wide=dc.level_of(label) <= 1):
         d0 = copy.deepcopy(d)
@@ -109,7 +120,7 @@ def run_deser(case: dc.Case, rz, label, spec, st, tier):
                 st.violation(
                     dict(
                         base,
-                        signature={"kind": "deser_option_changes_result", "option": "+".join(n for n, on in (("override_dataclass_constructors", ov), ("no_copy=False", not nc), ("function", route == "function")) if on), "shape": dc.shape_of(label), "verdicts": [ref[0], oc[0]]},
+                        signature={"kind": "deser_option_changes_result", "option": "+".join(n for n, on in (("override_dataclass_constructors", ov), ("no_copy=False", not nc), ("function", route == "function"), ("pass_through:all", route.endswith("pt_all")), ("pass_through:types", route.endswith("pt_types"))) if on), "shape": dc.shape_of(label), "verdicts": [ref[0], oc[0]]},
                         what=f"options no_copy={nc} override_ctor={ov} via {route}: {str(oc)[:200]} but default gives {str(ref)[:200]}",
                         source=rz.source,
                     )
@@ -117,7 +128,7 @@ def run_deser(case: dc.Case, rz, label, spec, st, tier):
                 continue
             if tsig(dd) != before:
                 st.violation(dict(base, signature={"kind": "input_modified", "no_copy": nc, "shape": dc.shape_of(label)}, what=f"input modified by deserialization (no_copy={nc})", source=rz.source))
-            if kind == "ok" and not nc and not has_any:
+            if kind == "ok" and not nc and not has_any and "pt_" not in route:  # pass_through returns instances as they are
                 a, b = set(), set()
                 containers(dd, a)
                 containers(out, b)
